@@ -41,7 +41,7 @@ for src in sorted(glob.glob(f"{SRC}/C??_1")):
         "clause_broken": meta.get("clause_broken", meta.get("description", "")),
         "what_it_needs_to_manifest": meta.get("what_it_needs_to_manifest", ""),
         "files_changed": meta.get("files_changed", []),
-        "origin": "written by an independent sub-agent that saw only the property text and a scratch worktree of /repo (round %d, /repo HEAD 1ba1af1)" % ROUND + "",
+        "origin": "written by an independent sub-agent that saw only the property text and a scratch worktree of /repo (round %d, /repo HEAD %s)" % (ROUND, c.get("repo_head_at_confirmation") or "1ba1af1"),
         "my_confirmation": {**c, "how": "tools/confirm_seeds.sh: scratch worktree of /repo HEAD; demo on the clean tree, git apply patch.diff, "
                                        "demo again, full pytest suite (BASELINE command, single-threaded BLAS)"},
         "detection": {**detect.get(sid, {}), "how": "tools/try_seed_wt.sh (patch applied in a scratch worktree, quick check run against it)",
